@@ -12,6 +12,37 @@ class Unsupported(Exception):
 
 # ------------------------------------------------------------------ ints
 
+_bv_range = {}     # ast id -> (lo, hi) signed value range of a 64-bit bit-vector term (sound over-approximation)
+_cmp_info = {}     # ast id of a Bool -> (op, a, b) the integer comparison it stands for
+_keep = []
+LIM = 1 << 62
+
+
+def rng_of(v, w=64, signed=True):
+    """(lo, hi) of an integer value if cheaply known, else None"""
+    if isinstance(v, bool):
+        return None
+    if isinstance(v, int):
+        return (v, v)
+    if isinstance(v, GSum):
+        return v.range(signed) if v.w == w else None
+    if isinstance(v, LazySel):
+        rs = [rng_of(c, w, signed) for c in v.cells]
+        if any(r is None for r in rs):
+            return None
+        return (min(r[0] for r in rs), max(r[1] for r in rs))
+    if isinstance(v, z3.ExprRef):
+        return _bv_range.get(v.get_id())
+    return None
+
+
+def set_rng(t, lo, hi):
+    if isinstance(t, z3.ExprRef) and -LIM < lo <= hi < LIM:
+        _bv_range[t.get_id()] = (lo, hi)
+        _keep.append(t)
+    return t
+
+
 def tobv(v, w):
     if isinstance(v, bool):
         raise Unsupported('bool as bv')
@@ -104,7 +135,43 @@ def int_ite(g, a, b, w, signed=True):
     ta, tb = tobv(a, w), tobv(b, w)
     if ta.eq(tb):
         return a
-    return z3.If(g, ta, tb)
+    res = z3.If(g, ta, tb)
+    if w == 64 and signed:
+        ra, rb = rng_of(a), rng_of(b)
+        info = _cmp_info.get(g.get_id())
+        neg = False
+        if info is None and z3.is_not(g):
+            info = _cmp_info.get(g.arg(0).get_id())
+            neg = True
+        if info is not None and ra is not None and rb is not None:
+            # refine by the guard when it compares one of the branches' values with a constant:
+            # ite(x > c, A, x): in the else branch x <= c ; etc.
+            op, x, c = info
+            if isinstance(c, int):
+                def refine(val, r, holds):
+                    # the branch where comparison (x op c) has truth value `holds`, value `val` is x itself
+                    if val is not x and not (isinstance(val, z3.ExprRef) and isinstance(x, z3.ExprRef) and val.eq(x)) and not (isinstance(val, GSum) and isinstance(x, GSum) and val.key() == x.key()):
+                        return r
+                    lo, hi = r
+                    o = op
+                    if not holds:
+                        o = {'<': '>=', '<=': '>', '>': '<=', '>=': '<', '==': '!=', '!=': '=='}[o]
+                    if o == '<':
+                        hi = min(hi, c - 1)
+                    elif o == '<=':
+                        hi = min(hi, c)
+                    elif o == '>':
+                        lo = max(lo, c + 1)
+                    elif o == '>=':
+                        lo = max(lo, c)
+                    elif o == '==':
+                        lo, hi = max(lo, c), min(hi, c)
+                    return (lo, hi) if lo <= hi else r
+                ra = refine(a, ra, not neg)
+                rb = refine(b, rb, neg)
+        if ra is not None and rb is not None:
+            set_rng(res, min(ra[0], rb[0]), max(ra[1], rb[1]))
+    return res
 
 
 def bv_simpl(t):
@@ -116,6 +183,27 @@ def int_cmp(op, a, b, w, signed):
     b = force(b)
     if isinstance(a, int) and isinstance(b, int):
         return {'==': a == b, '!=': a != b, '<': a < b, '<=': a <= b, '>': a > b, '>=': a >= b}[op]
+    if w == 64 and signed and (isinstance(a, z3.ExprRef) or isinstance(b, z3.ExprRef)):
+        ra, rb = rng_of(a), rng_of(b)
+        if ra is not None and rb is not None:
+            if op == '<' and ra[1] < rb[0] or op == '<=' and ra[1] <= rb[0] or op == '>' and ra[0] > rb[1] or op == '>=' and ra[0] >= rb[1] \
+                    or op == '!=' and (ra[1] < rb[0] or ra[0] > rb[1]):
+                return True
+            if op == '<' and ra[0] >= rb[1] or op == '<=' and ra[0] > rb[1] or op == '>' and ra[1] <= rb[0] or op == '>=' and ra[1] < rb[0] \
+                    or op == '==' and (ra[1] < rb[0] or ra[0] > rb[1]):
+                return False
+    r = _int_cmp(op, a, b, w, signed)
+    if isinstance(r, z3.ExprRef) and w == 64 and signed:
+        if isinstance(b, int):
+            _cmp_info[r.get_id()] = (op, a, b)
+            _keep.append(r)
+        elif isinstance(a, int):
+            _cmp_info[r.get_id()] = ({'<': '>', '<=': '>=', '>': '<', '>=': '<=', '==': '==', '!=': '!='}[op], b, a)
+            _keep.append(r)
+    return r
+
+
+def _int_cmp(op, a, b, w, signed):
     if op == '!=':
         return b_not(int_cmp('==', a, b, w, signed))
     if op == '>':
@@ -307,6 +395,15 @@ def int_binop(op, a, b, w, signed, ex=None, pos=None):
                         r = gs_from(gs_add(r, gs_indicator(g, w, 1 << k)), w)
                 return r.const_or_self()
     ta, tb = tobv(a, w), tobv(b, w)
+    if op in ('+', '-') and w == 64 and signed:
+        ra, rb = rng_of(a), rng_of(b)
+        res = (ta + tb) if op == '+' else (ta - tb)
+        if ra is not None and rb is not None:
+            if op == '+':
+                set_rng(res, ra[0] + rb[0], ra[1] + rb[1])
+            else:
+                set_rng(res, ra[0] - rb[1], ra[1] - rb[0])
+        return res
     if op == '+':
         return ta + tb
     if op == '-':
